@@ -27,7 +27,7 @@ RULE = ('histories of 1..7 opens (auto-detected, a few with format= named) over 
         'files written with netCDF4, the shipped uamiv / lateral_boundary / humidity / vertical_diffusivity / ffi1001 / bpch / csv / '
         'point_source / wind samples, each under a telling extension, without extension and under misleading or unknown extensions, plus '
         'empty / 2-byte / ARL-stub files; streams: random, "telling-extension opens then extension-less probes", "same file k times", '
-        'named opens interleaved, malformed.  Each history runs in a fresh interpreter; every step is compared with the fresh-interpreter '
+        'named opens interleaved, named opens of copies under novel suffixes (.grd01, .20200101, .dat, .bin) followed by auto-detected probes of the ambiguous one3d-family / netCDF files and of the same paths, malformed; the registry (names, classes, order) is compared with the initial one after every step.  Each history runs in a fresh interpreter; every step is compared with the fresh-interpreter '
         'open of the same file and with the model replayed on the measured accept matrix.  Non-trivial = at least one step whose '
         'history contains an earlier telling-extension open whose reader claims (or chokes on) the probed file (the pattern that failed before fix C15-registry-alias).')
 TRUSTED = ['accepts(reader, file) = reader.isMine(path) measured once per file in a fresh interpreter (all readers in registry order in one '
@@ -42,11 +42,12 @@ T = 'src/PseudoNetCDF/testcase'
 SAMPLES = dict(uamiv='camxfiles/uamiv/test.uamiv', point_source='camxfiles/point_source/test.point_source',
                lateral_boundary='camxfiles/lateral_boundary/test.lateral_boundary', humidity='camxfiles/humidity/test.humidity',
                vertical_diffusivity='camxfiles/vertical_diffusivity/test.vertical_diffusivity', wind='camxfiles/wind/test.wind',
+               temperature='camxfiles/temperature/test.temperature', height_pressure='camxfiles/height_pressure/test.height_pressure',
                bpch='geoschemfiles/test.bpch', ffi1001='icarttfiles/test.ffi1001', csv='woudcfiles/test_woudc.csv')
 
 # pool: file name -> (content key, ground-truth format name for the "named" open or None, self-describing?)
 POOL = [
-    ('plain3.nc', 'plain3', 'netcdf', True), ('plain3', 'plain3', 'netcdf', True), ('plain3.ncf', 'plain3', 'netcdf', True),
+    ('plain3.nc', 'plain3', 'netcdf', True), ('plain3', 'plain3', 'netcdf', True),
     ('plain3.dat', 'plain3', 'netcdf', True), ('plain3.uamiv', 'plain3', 'netcdf', True),
     ('plain4.nc', 'plain4', 'netcdf', True), ('plain4', 'plain4', 'netcdf', True),
     ('ioapi3.nc', 'ioapi3', 'ioapi', True), ('ioapi3', 'ioapi3', 'ioapi', True), ('ioapi3.ioapi', 'ioapi3', 'ioapi', True),
@@ -59,10 +60,14 @@ POOL = [
     ('obs.ffi1001', 'ffi1001', 'ffi1001', True), ('obs.ict', 'ffi1001', 'ffi1001', True), ('obs', 'ffi1001', 'ffi1001', True),
     ('ctm.bpch', 'bpch', 'bpch', True), ('ctm', 'bpch', 'bpch', True),
     ('pt.point_source', 'point_source', 'point_source', True), ('pt', 'point_source', 'point_source', True),
-    ('sonde.csv', 'csv', 'csv', False), ('sonde', 'csv', 'csv', False),
+    ('sonde.csv', 'csv', 'csv', False),
     ('met.wind', 'wind', None, False),
     ('empty', 'empty', None, False), ('short.nc', 'short', None, False), ('arlstub', 'arlstub', None, False),
-    ('aermod.txt', 'aermod', None, False),
+    # novel suffixes (no reader is registered under grd01 / 20200101 / dat / bin) on the one-variable CAMx family, and
+    # suffix-less temperature / height_pressure samples, which the humidity / vertical_diffusivity / one3d isMine claim too
+    ('hum.grd01', 'humidity', 'humidity', True), ('kv.grd01', 'vertical_diffusivity', 'vertical_diffusivity', True),
+    ('hum.20200101', 'humidity', 'humidity', True), ('met_kv.dat', 'vertical_diffusivity', 'vertical_diffusivity', True),
+    ('temp3d', 'temperature', 'temperature', False), ('zp.bin', 'height_pressure', 'height_pressure', False),
 ]
 POOLD = {p[0]: p for p in POOL}
 
@@ -207,6 +212,9 @@ def _child(req):
         if st.get('fmt') is None:
             o['sel'] = sel.get('v', ['none', ''])
         o['reglen'] = len(g._readers)
+        now = snap()
+        if now != out['reg0']:
+            o['regdiff'] = [e for e in now if e not in out['reg0']][:4] + [['-removed-', str(e)] for e in out['reg0'] if e not in now][:2] or [['reordered', '']]
         steps.append(o)
     out['steps'] = steps
     out['regN'] = snap()
@@ -290,8 +298,11 @@ TELLING = [p[0] for p in POOL if '.' in p[0] and p[0].split('.')[-1] in
            ('nc', 'ncf', 'uamiv', 'ioapi', 'wrf', 'lateral_boundary', 'humidity', 'vertical_diffusivity', 'ffi1001', 'bpch',
             'point_source', 'csv', 'wind')]
 NOEXT = [p[0] for p in POOL if '.' not in p[0] or p[0].split('.')[-1] in ('dat', 'bin', 'ict', 'txt')]
-MALFORMED = ['empty', 'short.nc', 'arlstub', 'aermod.txt', 'met.wind', 'plain3.uamiv']
+MALFORMED = ['empty', 'short.nc', 'arlstub', 'met.wind', 'plain3.uamiv']
 ALL = [p[0] for p in POOL]
+NOVEL = ['hum.grd01', 'kv.grd01', 'hum.20200101', 'met_kv.dat', 'zp.bin', 'avrg.bin', 'plain3.dat', 'obs.ict', 'met_hum', 'met_kv', 'ioapi3']
+AMBIG = ['met_hum', 'met_kv', 'temp3d', 'zp.bin', 'hum.grd01', 'kv.grd01', 'hum.20200101', 'met_kv.dat', 'ioapi3', 'plain3', 'wrfout_d01', 'plain4']
+SIBLING = {'humidity': 'vertical_diffusivity', 'vertical_diffusivity': 'humidity', 'netcdf': 'gcnc', 'ioapi': 'netcdf', 'height_pressure': 'humidity'}
 
 
 def gen(rng, n, tier):
@@ -300,7 +311,7 @@ def gen(rng, n, tier):
         r = rng.random()
         steps = []
         if tier == 'search':
-            r = rng.choice([0.3, 0.3, 0.3, 0.55, 0.9])
+            r = rng.choice([0.3, 0.3, 0.7, 0.7, 0.55, 0.9])
         if r < 0.25:
             kind = 'random'
             for _ in range(rng.randint(1, 7)):
@@ -318,6 +329,21 @@ def gen(rng, n, tier):
             b = rng.choice(ALL)
             steps = [dict(f=a)] * k + [dict(f=b)] + [dict(f=a)] * rng.randint(0, 2)
             steps = [dict(s) for s in steps]
+        elif r < 0.8 and rng.random() < 0.6:
+            # named opens of files under novel suffixes (true format, or a sibling format that reads the same layout),
+            # interleaved with auto-detected probes of the ambiguous files and of the very paths opened by name before
+            kind = 'named-novel'
+            named = []
+            for _ in range(rng.randint(1, 3)):
+                f = rng.choice(NOVEL)
+                fmt = POOLD[f][2]
+                if rng.random() < 0.3:
+                    fmt = SIBLING.get(fmt, fmt)
+                steps.append(dict(f=f, fmt=fmt)); named.append(f)
+                if rng.random() < 0.5:
+                    steps.append(dict(f=rng.choice(named + AMBIG)))
+            for _ in range(rng.randint(1, 3)):
+                steps.append(dict(f=rng.choice(named if rng.random() < 0.4 else AMBIG)))
         elif r < 0.8:
             kind = 'named-mix'
             for _ in range(rng.randint(2, 6)):
@@ -443,6 +469,11 @@ def py_check(case, obs):
         if b['reg0'] != obs['reg0'] or b['reg0b'] != obs['reg0'] or not b['matrix_pure']:
             f_ok = False
             why.append('initial registry differs between interpreters / matrix measurement not pure (%s)' % f)
+    for k, (s, o) in enumerate(zip(case['steps'], obs['steps'])):
+        if o.get('regdiff'):
+            f_ok = False
+            why.append('registry changed by step %d (%s%s): %s' % (k, s['f'], ', format=%s' % s['fmt'] if s.get('fmt') else '', o['regdiff']))
+            break
     s_ok = True
     for k, (s, o) in enumerate(zip(case['steps'], obs['steps'])):
         if s.get('fmt') is None:
